@@ -276,11 +276,62 @@ def generate(repo):
         if req not in vt_canon:
             raise ExtractError(f'ValueTypes.{req} missing')
     from extract import lean_str_chars
+    # entity syntax tables
+    et_values = _enum_values(ftree, 'EntityTypes')
+    kinds = []
+    for nme in et_names:
+        v = et_values.get(nme)
+        if not isinstance(v, str):
+            raise ExtractError(f'EntityTypes.{nme}: value is not a string literal')
+        kinds.append((v.title().replace('class', 'Class'), v))
+    if 'EXTEND' not in et_names:
+        raise ExtractError('EntityTypes.EXTEND missing')
+    # the export line:  file.write(f'@{self.type.value.title().replace("class", "Class")} ')
+    if "self.type.value.title().replace('class', 'Class')" not in ast.unparse(ftree):
+        raise ExtractError('EntityDef.export: the @Kind spelling is no longer value.title().replace("class", "Class")')
+    ht_members, _ = _enum_members(ftree, 'HelperTypes')
+    ht_values = _enum_values(ftree, 'HelperTypes')
+    helper_types = []
+    for n_, c_ in ht_members:
+        if n_ == c_:
+            helper_types.append(ht_values[n_])
+    htree = ast.parse((repo / 'src/srctools/_fgd_helpers.py').read_text(encoding='utf-8'))
+    ext_helpers = []
+    for n_ in htree.body:
+        if isinstance(n_, ast.ClassDef):
+            is_ext, typ = False, None
+            for st_ in n_.body:
+                if isinstance(st_, ast.AnnAssign) and isinstance(st_.target, ast.Name):
+                    if st_.target.id == 'IS_EXTENSION' and isinstance(st_.value, ast.Constant):
+                        is_ext = bool(st_.value.value)
+                    if st_.target.id == 'TYPE' and isinstance(st_.value, ast.Attribute):
+                        typ = st_.value.attr
+            if is_ext:
+                if typ is None or typ not in ht_values:
+                    raise ExtractError(f'{n_.name}: IS_EXTENSION helper without a HelperTypes TYPE')
+                ext_helpers.append(ht_values[typ])
+    rbn = None
+    for n_ in ftree.body:
+        if isinstance(n_, ast.Assign) and any(isinstance(t, ast.Name) and t.id == 'RESTYPE_BY_NAME' for t in n_.targets):
+            rbn = n_.value
+    if not isinstance(rbn, ast.Dict):
+        raise ExtractError('RESTYPE_BY_NAME is not a dict literal')
+    res_by_name = []
+    for k_, v_ in zip(rbn.keys, rbn.values):
+        if not (isinstance(k_, ast.Constant) and isinstance(k_.value, str) and isinstance(v_, ast.Attribute) and v_.attr in ft_canon):
+            raise ExtractError('RESTYPE_BY_NAME: unrecognised entry')
+        res_by_name.append((k_.value, ft_names.index(ft_canon[v_.attr])))
+    if "RESTYPE_TO_NAME = {restype: name for name, restype in RESTYPE_BY_NAME.items()}" not in ast.unparse(ftree):
+        raise ExtractError('RESTYPE_TO_NAME: unrecognised construction')
+    res_names = [''] * len(ft_names)
+    for k_, i_ in res_by_name:
+        res_names[i_] = k_          # later names win
 
     L = []
     L.append('import Srctools.Model.C16')
     L.append('import Srctools.Model.C16Bin')
     L.append('import Srctools.Model.C16KV')
+    L.append('import Srctools.Model.C16Ent')
     L.append('/-! GENERATED by tools/gen_fgdw.py from src/srctools/fgd.py, _engine_db.py, const.py — do not edit. -/')
     L.append('namespace Gen.Fgdw')
     L.append('')
@@ -334,6 +385,15 @@ def generate(repo):
     L.append(f'  choices := {vt_names.index("CHOICES")}')
     L.append(f'  bool := {vt_names.index("BOOL")}')
     L.append(f'  ehandle := {vt_names.index(vt_canon["EHANDLE"])}')
+    L.append('')
+    L.append('/-- Entity syntax: `@Kind` words, helper names, resource type names. -/')
+    L.append('def entTab : C16.KV.EntTab where')
+    L.append('  kinds := [' + ', '.join(f'({lean_str_chars(w)}, {lean_str_chars(v)})' for w, v in kinds) + ']')
+    L.append(f'  extend := {et_names.index("EXTEND")}')
+    L.append('  helperTypes := [' + ', '.join(lean_str_chars(v) for v in helper_types) + ']')
+    L.append('  extHelpers := [' + ', '.join(lean_str_chars(v) for v in ext_helpers) + ']')
+    L.append('  resNames := [' + ', '.join(lean_str_chars(v) for v in res_names) + ']')
+    L.append('  resByName := [' + ', '.join(f'({lean_str_chars(k_)}, {i_})' for k_, i_ in res_by_name) + ']')
     L.append('')
     L.append('end Gen.Fgdw')
     return '\n'.join(L) + '\n'
